@@ -88,6 +88,8 @@ def make_pool(rng):
     g = rng.standard_normal((12, 12))
     P["COV"] = g.dot(g.T) + 12 * np.eye(12)
     P["COV32"] = np.tril(P["COV"]).astype("float32")
+    P["SEPMIX"] = np.array([0.05, 0.6, 1.9, 2.4, 2.6, 7.0, 30.0, 100.0]) * (1.0 + 0.01 * rng.random(8))
+    P["SEPMIX2"] = np.array([[0.06, 0.02], [1.2, 0.9], [2.4, 0.3], [2.6, 0.1], [9.0, 4.0], [40.0, 60.0]]) * (1.0 + 0.01 * rng.random((6, 2)))
     P["COVM"] = P["COV"] + 1e-3 * rng.standard_normal((12, 12))          # a measured covariance: symmetric only up to noise
     P["COEF"] = rng.standard_normal(6)
     P["JLIST"] = np.array([2, 5, 3])
@@ -260,11 +262,22 @@ def catalogue(ao):
         lambda f, a: f(a[0], 2))
     add("slopecovariance.structure_function_kolmogorov", SC.structure_function_kolmogorov, ["RAD"], lambda f, a: f(a[0], 0.15))
     add("slopecovariance.structure_function_vk", SC.structure_function_vk, ["RAD"], lambda f, a: f(a[0], 0.15, 25.0))
+    # separations on both sides of every plausible regime boundary in ONE array (0.002 L0 ... 4 L0): item-wise = each value alone
+    for nm in ("structure_function_vk", "compute_covariance_xx", "compute_covariance_xy"):
+        fn_ = getattr(SC, nm)
+        if nm == "structure_function_vk":
+            add("slopecovariance.%s[mixed-separations]" % nm, fn_, ["SEPMIX"], lambda f, a: f(a[0], 0.15, 25.0),
+                batch=dict(n=8, single=lambda f, a, i: f(a[0][i:i + 1].copy(), 0.15, 25.0)[0], item=lambda r, i: r[i]))
+        else:
+            add("slopecovariance.%s[mixed-separations]" % nm, fn_, ["SEPMIX2"], lambda f, a: f(a[0], 0.5, 0.4, 0.15, 25.0),
+                batch=dict(n=6, single=lambda f, a, i: f(a[0][i:i + 1].copy(), 0.5, 0.4, 0.15, 25.0)[0], item=lambda r, i: r[i]))
     add("slopecovariance.wfs_covariance", SC.wfs_covariance, ["POS1", "POS2"], lambda f, a: f(4, 4, a[0], a[1], 0.5, 0.5, 0.15, 25.0))
     add("slopecovariance.wfs_covariance_mpwrap", SC.wfs_covariance_mpwrap, ["POS1", "POS2"],
         lambda f, a: f((4, 4, a[0], a[1], 0.5, 0.5, 0.15, 25.0)))
     add("slopecovariance.CovarianceMatrix", SC.CovarianceMatrix, ["MASK4", "GSPOS", "LAYR0"], lambda f, a: _covmat(f, a, 1))
     add("slopecovariance.CovarianceMatrix[rebuild+tomo]", SC.CovarianceMatrix, ["MASK4", "GSPOS", "LAYR0"], lambda f, a: _covmat(f, a, 1, True))
+    add("slopecovariance.CovarianceMatrix[two workers = one]", SC.CovarianceMatrix, ["MASK4", "GSPOS", "LAYR0"], lambda f, a: [_covmat(f, a, 2)],
+        batch=dict(n=1, single=lambda f, a, i: _covmat(f, a, 1), item=lambda r, i: r[i]))
     # (last of its family on purpose: in the reversed call order of the cross-process trace this system is the FIRST one a fresh
     #  interpreter builds, in the natural order it comes after systems with more sub-apertures)
     add("slopecovariance.CovarianceMatrix[vignetted]", SC.CovarianceMatrix, ["MASK4", "GSPOS", "LAYR0"], lambda f, a: _covmat(f, a, 1, False, True))
@@ -441,7 +454,8 @@ def _close(r1, r2):
         if a.shape != b.shape:
             return False
         if a.dtype.kind in "fc" or b.dtype.kind in "fc":
-            return bool(np.allclose(a, b, rtol=1e-9, atol=1e-12 * (1 + np.nanmax(np.abs(a)) if a.size else 1), equal_nan=True))
+            fin = np.abs(a[np.isfinite(a)]) if a.size else np.zeros(0)
+            return bool(np.allclose(a, b, rtol=1e-9, atol=1e-12 * (fin.max() if fin.size else 0.0), equal_nan=True))      # relative to the result's own scale
         return bool(np.array_equal(a, b))
     except Exception:  # noqa
         return r1 == r2
@@ -549,7 +563,8 @@ class Recorder:
                         with np.errstate(all="ignore"):
                             s = np.asarray(b["single"](e["fn"], [x.copy() for x in args], i))
                             bt = np.asarray(b["item"](res, i))
-                    agree.append(bool(s.shape == bt.shape and np.allclose(s, bt, rtol=1e-9, atol=1e-12, equal_nan=True)))
+                    fin = np.abs(s[np.isfinite(s)]) if s.size else np.zeros(0)
+                    agree.append(bool(s.shape == bt.shape and np.allclose(s, bt, rtol=1e-9, atol=1e-12 * (fin.max() if fin.size else 0.0), equal_nan=True)))
                 except Exception:  # noqa
                     agree.append(False)
             self.events.append(dict(op="batch", f=fidx + 1, name=e["name"], single=[True] * b["n"], batched=agree))
